@@ -949,6 +949,11 @@ def run_case(desc, W, res, ctx="plain"):
         try:
             plain_lines = render_lines(desc, avail)
             plain = judge(desc, avail, plain_lines).problems
+            if nested and not plain_lines:
+                # the table renders no line at all (no rows, no header, no edge); what the container shows is
+                # its own blank cell line, not a line of the table -- nothing of the table to judge
+                res.sig((ctx, "empty-table"), nontrivial=False)
+                return
             if nested and any(sw(l) > avail for l in plain_lines):
                 # wider than the room it was given (C01's business, for this property the known
                 # column-min_width finding): the container crops it -- artefact, as above
@@ -1019,6 +1024,7 @@ def describe(tier, seed, res):
             "struct_min = per column the widest unbreakable piece (2 for wide characters, the whole line for no_wrap, 5 for the nested Panel/Table, explicit width/min_width) + full horizontal padding + borders; below it a case is only executed",
             "exact fold content is demanded where the column span read from the output is wide enough for the cell plus full padding, and, whatever the span, at or above ample_min (columns x (largest need + padding + 1) + borders, no ratio columns) for every cell whose need is within the column's own width cap (max_width / width), if any; there an uncapped fold column must also be at least as wide as its need",
             "a table width option larger than the console width is not judged for expansion",
+            "a table that renders no line at all (no rows, no header, no edge) is only executed in nested render contexts: the blank line shown there is the container's own cell line",
             "in nested render contexts a table that is wider than the room it was given (fixed width option, or the known column-min_width finding) is cropped by the container: such cases are only executed",
             "nested contexts: tables with a visible right border are un-padded by stripping trailing blanks, the others are cut at the implementation's own width vector (so the equal-width clause is vacuous for them there; it is judged in the plain and print-option contexts)",
         ],
